@@ -103,8 +103,12 @@ fn collect_type_dec(
     td.info
         .slice(tokens)
         .iter()
-        .filter_map(|token| {
-            let semantic_token = if matches!(&td.name, Some(name) if name.to_range() == token.range)
+        .enumerate()
+        .filter_map(|(index, token)| {
+            // position of the token in the declaration;
+            // the identifier is the last token in the range of a name (which may contain comments)
+            let index = td.info.range.start + index;
+            let semantic_token = if matches!(&td.name, Some(name) if name.to_range().end == index + 1)
             {
                 Some(create_semantic_token(
                     token,
@@ -146,8 +150,12 @@ fn collect_proc_dec(
     pd.info
         .slice(tokens)
         .iter()
-        .filter_map(|token| {
-            let semantic_token = if matches!(&pd.name, Some(name) if name.to_range() == token.range)
+        .enumerate()
+        .filter_map(|(index, token)| {
+            // position of the token in the declaration;
+            // the identifier is the last token in the range of a name (which may contain comments)
+            let index = pd.info.range.start + index;
+            let semantic_token = if matches!(&pd.name, Some(name) if name.to_range().end == index + 1)
             {
                 Some(create_semantic_token(
                     token,
@@ -173,7 +181,10 @@ fn collect_proc_dec(
                         SemanticTokenModifier::None.into(),
                     ),
                     Entry::Variable(variable) => {
-                        let modifier = if variable.name.to_range() == token.range {
+                        // the name's range is relative to the variable declaration
+                        let modifier = if variable.range.start + variable.name.to_range().end
+                            == index + 1
+                        {
                             SemanticTokenModifier::Declaration
                         } else {
                             SemanticTokenModifier::None
@@ -187,7 +198,8 @@ fn collect_proc_dec(
                         )
                     }
                     Entry::Parameter(param) => {
-                        let modifier = if param.name.to_range() == token.range {
+                        // the name's range is relative to the parameter declaration
+                        let modifier = if param.range.start + param.name.to_range().end == index + 1 {
                             SemanticTokenModifier::Declaration
                         } else {
                             SemanticTokenModifier::None
